@@ -14,7 +14,11 @@ K0, K1 = Opaque('key', ident='k0'), Opaque('key', ident='k1')
 
 def new_interp(prog):
     I = world.new_interp(prog, loop_bound=8)
+    install_hash(I)
+    return I
 
+
+def install_hash(I):
     @I.model(r'^DefaultHasher::new$|^std::hash::DefaultHasher::new$', 'DefaultHasher::new')
     def m_dh_new(I, st, f, args, fr):
         return I.ret(st, Agg('DefaultHasher', (Opaque('nothing-hashed'),)))
@@ -328,8 +332,9 @@ def run(ctx):
     ctx.bounds.update({'pool': 'worker ids 0..2, every presence pattern used by the cases; pool_size symbolic for CustomRouting, 1..3 for round robin',
                        'keys': 'two opaque keys with an uninterpreted hash', 'hash': 'CustomHashFunction::hash returns any usize',
                        'worker_books': 'queue of 0..3 jobs over two keys, zero or one job in flight, ops enqueue_job(k) / worker_complete(k) / replace_worker, hand-over succeeding or failing',
-                       'outside': 'the factory-level composition over time (dispatch / completion / resize / replacement interleavings across several workers: same-key exclusivity follows from '
-                                  'the per-call choice + the exact pending-key table, but that composition is argued, not executed); queuer never idling a worker while jobs wait'})
+                       'outside': 'the factory actor on a runtime (messages in worker mailboxes, Finished reports racing a replacement); same-key exclusivity is an inductive invariant executed for the '
+                                  'routing step (bounds.exclusive) and carried through completion / replacement / resize by the books and pool invariants; sticky-queuer exclusivity and '
+                                  '"queuer never idles a worker while jobs wait" over histories'})
     ctx.assumptions += ['HashMap / VecDeque / Vec contract models; DefaultHasher is an uninterpreted function of the key', 'WorkerProperties are concrete-shape records (available / busy with a key / queued)']
     check_custom(ctx, prog)
     check_round_robin(ctx, prog)
@@ -338,13 +343,19 @@ def run(ctx):
     check_queuer(ctx, prog, 'StickyQueuerRouting')
     import C14_books
     C14_books.check(ctx, prog)
+    import C14_exclusive
+    C14_exclusive.check(ctx, prog)
 
 
 def replay_file(path):
     import json
     import C14_replay
     d = json.load(open(path))
-    if d['replay']['which'] == 'books':
+    if d['replay']['which'] == 'exclusive':
+        import C14_exclusive_replay
+        rp = d['replay']
+        r = C14_exclusive_replay.replay(tuple((w, (tuple(qc[0]), tuple(qc[1]))) for w, qc in rp['pool']), rp['hint'])
+    elif d['replay']['which'] == 'books':
         r = C14_replay.replay_books(d['replay']['rp'])
     else:
         r = C14_replay.replay(d['replay']['which'])
